@@ -36,7 +36,7 @@ ASSUMPTIONS = [
     'not modelled; a history containing a raw dbops.Query with table DDL is excluded from the verdict',
     'the __type__ pseudo-link is never stored (delta.py: "We optimize away __type__") and is not expected',
 ]
-MIN_EVALS = {'quick': 100, 'thorough': 4000}
+MIN_EVALS = {'quick': 100, 'thorough': 2500}
 
 TYPES = ['A', 'B', 'C', 'D']
 PROPS = ['p0', 'p1', 'p2', 'p3']
@@ -542,7 +542,7 @@ def _run(rec, case):
 
 def shard(rec, idx, nshards, seed, tier):
     preload()
-    n = 10 if tier == 'quick' else 300
+    n = 10 if tier == 'quick' else 250
     core.run_given(_strategy(), lambda c: _run(rec, c), seed=seed * 1000 + idx, max_examples=n)
 
 
